@@ -309,6 +309,19 @@ func (s *atpServerSession) handleSignalMessage(runID string, signalMessage Signa
 	s.stepWg.Add(1) // Wait until the signal handler is done
 	go func() {
 		defer s.stepWg.Done()
+		defer func() {
+			// As for steps: a panicking signal handler must not take the plugin, and with it every
+			// running step, down. The step itself goes on, so the error is not fatal to it.
+			if r := recover(); r != nil {
+				s.workDone <- ServerError{
+					RunID: runID,
+					Err: fmt.Errorf("panic while running signal ID %s for run ID '%s': (%v)",
+						signalMessage.SignalID, runID, r),
+					StepFatal:   false,
+					ServerFatal: false,
+				}
+			}
+		}()
 		if err := s.pluginSchema.CallSignal(
 			s.ctx,
 			runID,
